@@ -26,6 +26,14 @@ Oracle readings (the weaker one wherever the statement leaves room, see DESIGN.m
   is k for every cell (the setter's docstring: "Setting this value affects all cells") - and "every cell in reading
   order" is the current .contents; sub grid_hist drives one GridFlow through a history of re-configurations and
   content changes and re-applies the construction-time oracle after every step.
+* a packed child's "own size" is the one it asks for when the container is laid out: cases with a "resize" list lay
+  one Columns / Pile out three times at every size (as built; after the listed children changed their amount - a
+  packed probe by answering another pack() / rows() and invalidating only itself, a given / weighted child
+  re-optioned through .contents; after they changed back) and apply the same oracle to the children as they are then.
+* a GridFlow cell may be given a width of its own through .contents (the contents docstring: "number is the number of
+  screen columns to allocate to this cell"): that number is then that cell's configured width until an assignment to
+  .cell_width - of any value, the current one included - or the widget-only .cells setter brings every cell back to
+  the common width.
 * "every combination of given, packed and weighted children" is a combination of *options*, however the
   caller wrote them down: constructor tuples (int / 'given' / WHSettings.GIVEN / legacy 'fixed', 'pack' / legacy
   'flow', 'weight' / bare widget), or (widget, options) entries put into .contents with a plain tuple of
@@ -59,21 +67,31 @@ RULE = (
     "get_rows_sizes + render on a reduced grid; the Columns / Pile render grids again with the options written in "
     "every other documented spelling (constructor tuples with 'given'/'pack'/'weight' strings, WHSettings members, "
     "legacy 'fixed'/'flow'/bare widget; .contents entries as plain string tuples, WHSettings tuples, or built by "
-    ".options() from a string or a member) for all children and in a rotating per-child mixture; "
+    ".options() from a string or a member) for all children and in a rotating per-child mixture; the same render "
+    "grids (Pile <=3 items, thorough 4; Columns <=3 children at dividechars 1, min_width 2, quick without box_columns "
+    "flags) with ONE container laid out three times at every size - as built, after a child changed its amount, "
+    "after it changed back, canvases kept, canvas cache not cleared in between - for each packed child alone "
+    "changing by itself (its probe answers another size and calls only its own _invalidate()) to every other size "
+    "of 0/1/3/5, all packed children together, and each given / weighted child re-optioned through .contents to one "
+    "other amount; "
     "calculate_left_right_padding and calculate_top_bottom_filler for "
     "every align kind (left/center/right, relative 0..100 step 5), given sizes 1..12, relative 0..100 step 5 with "
     "min None/1/3/6, clip, margins 0..5 x 0..5, sizes 1..30; Padding / Filler / Overlay rendered with a probe child "
     "on reduced grids; GridFlow with <=7 cells, cell width 1..6, h_sep 0..2, v_sep 0..1, maxcol 1..30; GridFlow "
-    "histories on ONE object (canvas cache not cleared between steps): every history of one or two ops out of 21 "
-    "(cell_width := 1/3/4/6, h_sep := 0/2, v_sep := 1, align := right, append a cell with its options written as "
+    "histories on ONE object (canvas cache not cleared between steps): every history of one or two ops out of 24 "
+    "(cell_width := 1/3/4/6, cell_width := the value it has, the first cell given a width of 1 / the last a width of "
+    "5 of its own by replacing its .contents entry, h_sep := 0/2, v_sep := 1, align := right, append a cell with its "
+    "options written as "
     "options() / options('given') / options(GIVEN, width) / ('given', width) / (WHSettings.GIVEN, width), insert "
     "at 0 / 1, delete first / last, focus first / last, .contents re-assigned with the same entries rotated, the "
     "backwards-compatible .cells setter) on grids of 1/3/5 cells (thorough also 2/7), cell width 2/4, h_sep 0/1, "
     "focus first/last, drawn after the constructor and after every op at maxcol 5, 13 and as a fixed widget "
     "(render(())); the oracle is the construction-time one applied to the model (cells in .contents order, each "
-    "min(current cell_width, maxcol) wide).  Hypothesis "
+    "min(its configured width, maxcol) wide - the common cell_width unless the cell was given its own since the last "
+    "assignment to cell_width).  Hypothesis "
     "beyond those ranges (up to 8 children, sizes up to 200, weights incl. fractions, arbitrary percentages, a "
-    "spelling drawn per child; GridFlow histories of up to 8 ops, cell widths up to 20, 1..3 sizes up to 120).  "
+    "spelling drawn per child, in half of the Columns / Pile cases 1..3 children that change their amount and back; "
+    "GridFlow histories of up to 8 ops incl. own widths 1..20, cell widths up to 20, 1..3 sizes up to 120).  "
     "A configuration is one (widget options, size) pair; a case carries a size range so one case = many "
     "configurations (counted as class 'cfg:*').  Non-trivial: a column/row has to be dropped or the weighted "
     "space leaves a remainder (Columns/Pile); the requested size does not fit beside the margins or the spare "
@@ -92,11 +110,17 @@ ASSUMPTIONS = [
     "options() document, plus the constructor's backwards-compatible 'fixed' / 'flow' forms; children spelled "
     "through .contents are inserted after construction and the focus is then set with focus_position",
     "GridFlow histories: 'the configured cell width' is read as the width in force when the grid is drawn (the "
-    "constructor argument or the last assignment to .cell_width, which its docstring says affects all cells); new "
-    "cells are added with options that name that same width (options() default or the width written out), so no "
-    "cell has a width of its own; nothing is asserted about h_sep / v_sep / align (assigning them is only a "
-    "perturbation) and the grid always keeps at least one cell; the deprecated .cells setter is used as documented "
-    "(its DeprecationWarning is not a sizing warning)",
+    "constructor argument or the last assignment to .cell_width, which its docstring says affects all cells - an "
+    "assignment of the value it already has included); new cells are added with options that name that same width "
+    "(options() default or the width written out); a cell whose .contents entry was replaced by one naming another "
+    "number of columns (>= 1) is configured to that width ('number is the number of screen columns to allocate to "
+    "this cell') until the next assignment to .cell_width or .cells; a fixed GridFlow offers its cells the width of "
+    "len(cells) common-width cells plus separators; nothing is asserted about h_sep / v_sep / align (assigning them "
+    "is only a perturbation) and the grid always keeps at least one cell; the deprecated .cells setter is used as "
+    "documented (its DeprecationWarning is not a sizing warning)",
+    "resized children: a packed child that wants another size says so the way urwid's own widgets do (Text.set_text, "
+    "Edit): it calls its own _invalidate() and nothing else; given / weighted amounts change through "
+    "container.contents[i] = (widget, container.options(kind, amount[, box flag])); the kind of a child never changes",
 ]
 
 BOX, FLOW, FIXED = urwid.BOX, urwid.FLOW, urwid.FIXED
@@ -378,6 +402,15 @@ def _spell_classes(prefix, case):
 #        "maxcol": [lo, hi], "mode": "flow"|"box", "box": [indices flagged in box_columns], "render": bool}
 
 
+def _resize_classes(prefix, case, kids):
+    rs = case.get("resize") or ()
+    kinds = sorted({kids[i][0] for i, _new in rs if _is_int(i) and 0 <= i < len(kids)})
+    out = [f"{prefix}:resized={k}" + ("(by itself)" if k == "pack" else "(through .contents)") for k in kinds]
+    if len(rs) > 1:
+        out.append(f"{prefix}:resized=several-children")
+    return out
+
+
 def _columns_loose(children):
     return any(k in ("given", "weight") and a == 0 for k, a in children)
 
@@ -453,6 +486,7 @@ def check_columns(case):
     maxrow = case.get("maxrow", 3)
     n = len(children)
     spells = _spells_of(case, n)
+    resize = _resize_of(case, children)  # see RESIZE below
     note = f" spelled {case['spell']}" if case.get("spell") else ""
     log = []
     probes = []
@@ -473,29 +507,42 @@ def check_columns(case):
     sizing = cols.sizing()
     if (BOX if mode == "box" else FLOW) not in sizing:
         raise Discard()
-    loose = _columns_loose(children)
-    wint, zero_packed = _columns_prepare(children)
     _stat("cfg:columns", hi - lo + 1)
-    for maxcol in range(lo, hi + 1):
+    keep = []  # canvases of earlier drawings stay referenced, as a screen keeps the last one
+
+    def change(which):
+        amounts = {i: (new if which == "new" else old) for i, old, new in resize}
+        for i, amount in amounts.items():
+            if children[i][0] == "pack":
+                probes[i].fixed = (amount, probes[i].fixed[1])
+                probes[i]._invalidate()
+            else:
+                cols.contents[i] = (probes[i], cols.options(children[i][0], amount, i in boxflags))
+        return [(k, amounts.get(j, a)) for j, (k, a) in enumerate(children)]
+
+    def layout(children, maxcol, phase):
+        loose = _columns_loose(children)
+        wint, zero_packed = _columns_prepare(children)
+        note2 = note + phase
         size = (maxcol,) if mode == "flow" else (maxcol, maxrow)
         widths = list(cols.column_widths(size, False))
-        _columns_oracle(children, wint, zero_packed, loose, d, mw, focus, maxcol, widths, note)
+        _columns_oracle(children, wint, zero_packed, loose, d, mw, focus, maxcol, widths, note2)
         if n > 1:
             # the same long-lived widget after a focus change at the same width (and back): the partition is a
             # function of the options, the focus and the size, not of what was laid out before
             f2 = (focus + 1) % n
             cols.focus_position = f2
-            _columns_oracle(children, wint, zero_packed, loose, d, mw, f2, maxcol, list(cols.column_widths(size, False)), note)
+            _columns_oracle(children, wint, zero_packed, loose, d, mw, f2, maxcol, list(cols.column_widths(size, False)), note2)
             cols.focus_position = focus
             again = list(cols.column_widths(size, False))
             if again != widths:
                 raise Violation("columns-widths-depend-on-history",
-                                f"children={children}{note} dividechars={d} min_width={mw} maxcol={maxcol}: widths {widths} with focus "
+                                f"children={children}{note2} dividechars={d} min_width={mw} maxcol={maxcol}: widths {widths} with focus "
                                 f"{focus}, {again} after moving the focus to {f2} and back")
         if not render:
-            continue
+            return
         _stat("cfg:columns-render")
-        msg = f"children={children}{note} dividechars={d} min_width={mw} focus={focus} box={sorted(boxflags)} size={size}"
+        msg = f"children={children}{note2} dividechars={d} min_width={mw} focus={focus} box={sorted(boxflags)} size={size}"
         w2, heights, args = cols.get_column_sizes(size, False)
         if list(w2) != widths:
             raise Violation("columns-sizes-agree", f"{msg}: column_widths {widths}, get_column_sizes {list(w2)}")
@@ -515,12 +562,17 @@ def check_columns(case):
             if not ok:
                 raise Violation("columns-child-size", f"{msg}: column {i} of width {w} gets render size {arg!r}")
         del log[:]
-        urwid.CanvasCache.clear()
+        if not phase:
+            urwid.CanvasCache.clear()
         canv = cols.render(size, False)
+        keep.append(canv)
         rendered = {}
         for name, what, sz in log:
             if what == "render":
                 rendered.setdefault(name, []).append(sz)
+        if phase and not rendered and any(w > 0 for w in widths):
+            # the children changed since the last drawing at this size, yet no child was drawn again
+            raise Violation("columns-not-redrawn", f"{msg}: render() drew no child again")
         for i in range(n):
             w = widths[i] if i < len(widths) else 0
             got = rendered.get(i, [])
@@ -536,7 +588,7 @@ def check_columns(case):
         if loose or canv.rows() == 0:
             # (a flow Columns whose only visible columns are box_columns has no height information and
             # renders zero rows; the statement says nothing about heights)
-            continue
+            return
         row0 = _rows_of(canv)[0]
         runs = [(g, len(list(grp))) for g, grp in itertools.groupby(row0)]
         pos, seq = 0, []
@@ -550,6 +602,16 @@ def check_columns(case):
         for (_g1, p1, l1), (_g2, p2, _l2) in zip(seq, seq[1:]):
             if p2 - (p1 + l1) != d:
                 raise Violation("columns-render-dividers", f"{msg}: widths {widths} but first row is {row0!r}")
+
+    for maxcol in range(lo, hi + 1):
+        layout(children, maxcol, "")
+        if resize:
+            del keep[:-1]
+            _stat("cfg:columns-resized")
+            was = [list(x) for x in children]
+            who = [r[0] for r in resize]
+            layout(change("new"), maxcol, f" (before: {was}, then children {who} changed)")
+            layout(change("old"), maxcol, f" (after children {who} changed to {[r[2] for r in resize]} and back)")
 
 
 def _columns_nontrivial(case):
@@ -581,7 +643,7 @@ def _columns_classes(case):
         out.append("columns:fractional-weight")
     if _columns_loose(case["children"]):
         out.append("columns:zero-amounts(no-negative-clause-only)")
-    return out + _spell_classes("columns", case)
+    return out + _spell_classes("columns", case) + _resize_classes("columns", case, case["children"])
 
 
 # ---------------------------------------------------------------------------------------------
@@ -594,6 +656,39 @@ def _pile_loose(items):
     return any(k in ("given", "weight") and a == 0 for k, a in items)
 
 
+def _resize_of(case, children):
+    """case key "resize": [[index, new amount], ...] - children whose amount changes while the container lives (see
+    RESIZE below).  Returns the list of (index, old amount, new amount); a change to the same amount, of an unknown
+    child, to a non-positive given size / weight or to a negative packed size is not a case."""
+    out = []
+    seen = set()
+    for i, new in case.get("resize") or ():
+        if not (_is_int(i) and 0 <= i < len(children)) or i in seen:
+            raise Discard()
+        seen.add(i)
+        kind, old = children[i]
+        if new == old or isinstance(new, bool) or not isinstance(new, (int, float)):
+            raise Discard()
+        if kind == "weight":
+            if new <= 0:
+                raise Discard()
+        elif not _is_int(new) or new < (0 if kind == "pack" else 1):
+            raise Discard()
+        out.append((i, old, new))
+    return out
+
+
+# RESIZE - "every combination of given, packed and weighted children" holds for the combination the container has
+# NOW: a packed child's "own size" is the size it asks for when the container is laid out, not the one it asked for
+# the last time.  A case with a "resize" list lays the container out three times at every size of its range, on the
+# same object, at the same focus, with the canvases of the earlier drawings still alive and the canvas cache not
+# cleared: (A) as built; (B) after every listed child changed its amount; (A') after they changed back - the same
+# oracle each time, against the children as they are at that moment.  A packed child changes by itself, as a Text
+# whose text was set or an Edit that wraps does: its probe answers another rows() / pack() and calls only its own
+# _invalidate() - the container is not told.  A given / weighted child is re-optioned through the container API:
+# container.contents[i] = (same widget, container.options(kind, new amount[, box flag])).
+
+
 @_guarded
 def check_pile(case):
     items = [tuple(c) for c in case["items"]]
@@ -604,6 +699,7 @@ def check_pile(case):
     if not any(k == "weight" and a > 0 for k, a in items):
         raise Discard()  # documented: a box Pile needs at least one weighted item
     spells = _spells_of(case, n)
+    resize = _resize_of(case, items)
     note = f" spelled {case['spell']}" if case.get("spell") else ""
     log = []
     probes = []
@@ -615,17 +711,29 @@ def check_pile(case):
         raise Violation("pile-focus-position", f"focus {focus} gave focus_position {pile.focus_position}")
     if BOX not in pile.sizing():
         raise Discard()
-    loose = _pile_loose(items)
-    fixed = sum(a for k, a in items if k != "weight")
-    widx = [i for i in range(n) if items[i][0] == "weight"]
-    wint = [] if loose else _int_weights([items[i][1] for i in widx])
     _stat("cfg:pile", hi - lo + 1)
-    for maxrow in range(lo, hi + 1):
+    keep = []  # canvases of earlier drawings stay referenced, as a screen keeps the last one
+
+    def change(which):
+        amounts = {i: (new if which == "new" else old) for i, old, new in resize}
+        for i, amount in amounts.items():
+            if items[i][0] == "pack":
+                probes[i].nrows = amount
+                probes[i]._invalidate()
+            else:
+                pile.contents[i] = (probes[i], pile.options(items[i][0], amount))
+        return [(k, amounts.get(j, a)) for j, (k, a) in enumerate(items)]
+
+    def layout(items, maxrow, phase):
+        loose = _pile_loose(items)
+        fixed = sum(a for k, a in items if k != "weight")
+        widx = [i for i in range(n) if items[i][0] == "weight"]
+        wint = [] if loose else _int_weights([items[i][1] for i in widx])
         size = (maxcol, maxrow)
         rows = pile.get_item_rows(size, False)
 
         def lazy(rows=rows, size=size):
-            return f"items={items}{note} focus={focus} size={size}: rows {rows}"
+            return f"items={items}{note}{phase} focus={focus} size={size}: rows {rows}"
 
         if len(rows) != n:
             raise Violation("pile-length", lazy())
@@ -648,7 +756,7 @@ def check_pile(case):
                 if any(rows[i] != 0 for i in widx):
                     raise Violation("pile-nothing-left", lazy() + " (given/pack rows alone exceed maxrow)")
         if not render:
-            continue
+            return
         _stat("cfg:pile-render")
         msg = lazy()
         _w, heights, args = pile.get_rows_sizes(size, False)
@@ -659,12 +767,17 @@ def check_pile(case):
             if tuple(arg) != want:
                 raise Violation("pile-child-size", f"{msg}: item {i} gets render size {arg!r}, expected {want!r}")
         del log[:]
-        urwid.CanvasCache.clear()
+        if not phase:
+            urwid.CanvasCache.clear()
         canv = pile.render(size, False)
+        keep.append(canv)
         rendered = {}
         for name, what, sz in log:
             if what == "render":
                 rendered.setdefault(name, []).append(sz)
+        if phase and not rendered and any(r > 0 for r in rows):
+            # the children changed since the last drawing at this size, yet no child was drawn again
+            raise Violation("pile-not-redrawn", f"{msg}: render() drew no child again")
         for i, ((k, _a), r) in enumerate(zip(items, rows)):
             got = rendered.get(i, [])
             want = [(maxcol,) if k == "pack" else (maxcol, r)] if r > 0 else []
@@ -677,6 +790,16 @@ def check_pile(case):
             want = "".join(chr(ord("a") + i) * rows[i] for i in range(n))
             if col0 != want:
                 raise Violation("pile-render-layout", f"{msg}: first column reads {col0!r}, expected {want!r}")
+
+    for maxrow in range(lo, hi + 1):
+        layout(items, maxrow, "")
+        if resize:
+            del keep[:-1]
+            _stat("cfg:pile-resized")
+            was = [list(x) for x in items]
+            who = [r[0] for r in resize]
+            layout(change("new"), maxrow, f" (before: {was}, then children {who} changed)")
+            layout(change("old"), maxrow, f" (after children {who} changed to {[r[2] for r in resize]} and back)")
 
 
 def _pile_nontrivial(case):
@@ -700,7 +823,7 @@ def _pile_classes(case):
     out = [f"pile:n={len(case['items'])}", "pile:kinds=" + "+".join(kinds)]
     if _pile_loose(case["items"]):
         out.append("pile:zero-amounts(no-negative-clause-only)")
-    return out + _spell_classes("pile", case)
+    return out + _spell_classes("pile", case) + _resize_classes("pile", case, case["items"])
 
 
 # ---------------------------------------------------------------------------------------------
@@ -1160,6 +1283,12 @@ def _grid_classes(case):
 # case: {"n", "cw", "hsep", "vsep", "align", "focus", "sizes": [maxcol | None (fixed: render(()))...], "ops": [...]}
 # ops (positions are taken modulo the current number of cells):
 #   ["cw", k]  grid.cell_width = k          ["hsep", k] / ["vsep", k] / ["align", [type, pct]]  plain attributes
+#   ["recw"]   grid.cell_width = the width it already has (an assignment of an equal value is still an assignment:
+#              "Setting this value affects all cells")
+#   ["own", pos, k, spell]  grid.contents[pos] = (the same widget, options naming k columns written as `spell`, one of
+#              GRID_SPELLS_AMOUNT): the contents docstring - "number is the number of screen columns to allocate to
+#              this cell" - lets a cell have a width of its own; the model keeps one configured width per cell, which
+#              the next assignment to .cell_width (or the widget-only .cells setter) brings back to the common width
 #   ["append", spell]  ["insert", pos, spell]   a new cell whose options are written as `spell` (GRID_SPELLS)
 #   ["del", pos]       del grid.contents[pos]  (skipped when one cell is left)
 #   ["focus", pos]     grid.focus_position = pos
@@ -1167,6 +1296,7 @@ def _grid_classes(case):
 #                      handed back)          ["cells", r]  the same through the backwards-compatible .cells setter
 
 GRID_SPELLS = ("options", "options-str", "options-amount", "tuple-str", "tuple-enum")
+GRID_SPELLS_AMOUNT = GRID_SPELLS[2:]  # the spellings that write the width out
 GRID_MAX_CELLS = 26  # one letter per cell, so that neighbouring cells never share a glyph
 
 
@@ -1184,16 +1314,19 @@ def _grid_options(gf, spell, cw):
     raise Discard()
 
 
-def _grid_draw(gf, log, names, cw, size, msg):
+def _grid_draw(gf, log, names, widths, cw, hsep, size, msg):
+    """widths: {cell name: configured width of that cell}; cw / hsep: the grid's current common cell width and h_sep
+    (a fixed GridFlow is as wide as len(cells) common-width cells and their separators)"""
     _stat("cfg:grid-history")
     del log[:]
     fixed = size is None
     canv = gf.render(() if fixed else (size,), False)
-    width = cw if fixed else min(cw, size)
+    avail = len(names) * cw + (len(names) - 1) * hsep if fixed else size
+    shown = {i: min(widths[i], avail) for i in names}
     for name, what, sz in log:
         # (a drawing answered from the canvas cache renders no cell again: the canvas clauses below still apply)
-        if what == "render" and sz != (width,):
-            raise Violation("grid-cell-width", f"{msg}: cell {name} rendered with {sz}, expected ({width},)")
+        if what == "render" and sz != (shown[name],):
+            raise Violation("grid-cell-width", f"{msg}: cell {name} rendered with {sz}, expected ({shown[name]},)")
     if not fixed and canv.cols() != size:
         raise Violation("grid-canvas-width", f"{msg}: canvas {canv.cols()} wide")
     seq = []
@@ -1202,7 +1335,7 @@ def _grid_draw(gf, log, names, cw, size, msg):
         for g, grp in itertools.groupby(line):
             if g != " ":
                 seq.append((g, len(list(grp))))
-    want = [(chr(ord("a") + i), width) for i in names]
+    want = [(chr(ord("a") + i), shown[i]) for i in names]
     if seq != want:
         raise Violation("grid-reading-order", f"{msg}: canvas {lines}, expected cells {want}")
     if len([ln for ln in lines if ln.strip()]) > 1:
@@ -1223,22 +1356,27 @@ def check_grid_hist(case):
 
     names = list(range(n))
     widgets = {i: cell(i) for i in names}
+    widths = dict.fromkeys(names, cw)  # the configured width of every cell (the number in its options)
     gf = urwid.GridFlow([widgets[i] for i in names], cw, hsep, vsep, _align_arg(align), focus=focus)
     base = f"GridFlow({n} cells, cell_width={case['cw']}, h_sep={hsep}, v_sep={vsep}, align={align}, focus={focus})"
     done = []
 
     def draw_all():
         for size in sizes:
-            _grid_draw(gf, log, names, cw, size, f"{base} after {done} size={'()' if size is None else (size,)}")
+            _grid_draw(gf, log, names, widths, cw, hsep, size,
+                       f"{base} after {done} size={'()' if size is None else (size,)}")
 
     draw_all()
     for op in ops:
         kind = op[0]
-        if kind == "cw":
-            _stat("grid-op:cw(" + ("unchanged" if op[1] == cw else "narrower" if op[1] < cw else "wider") + ")")
-            gf.cell_width = cw = op[1]
+        if kind in ("cw", "recw"):
+            k = op[1] if kind == "cw" else cw  # "recw": the value the grid already has is assigned again
+            _stat("grid-op:cw(" + ("unchanged" if k == cw else "narrower" if k < cw else "wider")
+                  + (", some cell had a width of its own)" if any(widths[i] != cw for i in names) else ")"))
+            gf.cell_width = cw = k
+            widths = dict.fromkeys(names, cw)  # "Setting this value affects all cells"
         elif kind == "hsep":
-            gf.h_sep = op[1]
+            gf.h_sep = hsep = op[1]
         elif kind == "vsep":
             gf.v_sep = op[1]
         elif kind == "align":
@@ -1246,6 +1384,7 @@ def check_grid_hist(case):
         elif kind in ("append", "insert"):
             new = max(widgets) + 1
             widgets[new] = cell(new)
+            widths[new] = cw
             entry = (widgets[new], _grid_options(gf, op[-1], cw))
             if kind == "append":
                 gf.contents.append(entry)
@@ -1254,6 +1393,15 @@ def check_grid_hist(case):
                 pos = op[1] % (len(names) + 1)
                 gf.contents.insert(pos, entry)
                 names.insert(pos, new)
+        elif kind == "own":
+            # one cell is given a width of its own through the container API: the entry at pos is replaced by the
+            # same widget with options that name k columns
+            _k, pos, k, spell = op
+            if spell not in GRID_SPELLS_AMOUNT or k < 1:
+                raise Discard()
+            pos %= len(names)
+            gf.contents[pos] = (widgets[names[pos]], _grid_options(gf, spell, k))
+            widths[names[pos]] = k
         elif kind == "del":
             if len(names) == 1:
                 _stat("grid-op:del-skipped(last cell)")
@@ -1268,12 +1416,13 @@ def check_grid_hist(case):
             names = names[r:] + names[:r]
             if kind == "reassign":
                 entries = list(gf.contents)
-                gf.contents = entries[r:] + entries[:r]
+                gf.contents = entries[r:] + entries[:r]  # the same option tuples: every cell keeps its width
             else:
-                gf.cells = [widgets[i] for i in names]
+                gf.cells = [widgets[i] for i in names]  # widgets only: every cell gets the common width
+                widths = dict.fromkeys(names, cw)
         else:
             raise Discard()
-        if kind != "cw":
+        if kind not in ("cw", "recw"):
             _stat("grid-op:" + kind)
         done.append(op)
         draw_all()
@@ -1282,8 +1431,8 @@ def check_grid_hist(case):
 def _grid_hist_nontrivial(case):
     # the drawing depends on the history: the cell width is re-configured or the cells change, and a drawing
     # needs more than one row or is narrower than a cell
-    changed = any(op[0] in ("cw", "append", "insert", "del", "reassign", "cells") for op in case["ops"])
-    widths = [case["cw"]] + [op[1] for op in case["ops"] if op[0] == "cw"]
+    changed = any(op[0] in ("cw", "recw", "own", "append", "insert", "del", "reassign", "cells") for op in case["ops"])
+    widths = [case["cw"]] + [op[1] for op in case["ops"] if op[0] == "cw"] + [op[2] for op in case["ops"] if op[0] == "own"]
     n = case["n"]
     return changed and any(s is not None and n * w + (n - 1) * case["hsep"] > s for s in case["sizes"] for w in widths)
 
@@ -1395,6 +1544,33 @@ def spelled(cases, key, uniform_upto=99):
             yield c
 
 
+RESIZE_PACK = (0, 1, 3, 5)  # packed sizes a packed child changes to (empty, one, the middle of the set, beyond it)
+RESIZE_OTHER = {"given": (2, 5), "weight": (3, 1)}  # a given / weighted child is re-optioned to the first one that differs
+
+
+def resized(cases, key, others=True):
+    """every case of the stream once per child that changes its amount while the container lives (case key
+    "resize", see RESIZE at check_pile): each packed child alone to every other size of RESIZE_PACK; all packed
+    children together (two or more: child j to RESIZE_PACK[j % 4], or the next one if that is its size); and
+    (others) each given / weighted child alone, re-optioned through .contents to one other amount"""
+    for case in cases:
+        kids = case[key]
+        variants = []
+        packed = [i for i, (k, _a) in enumerate(kids) if k == "pack"]
+        for i, (k, a) in enumerate(kids):
+            if k == "pack":
+                variants += [[[i, x]] for x in RESIZE_PACK if x != a]
+            elif others and a:
+                variants.append([[i, next(x for x in RESIZE_OTHER[k] if x != a)]])
+        if len(packed) > 1:
+            variants.append([[i, next(x for x in RESIZE_PACK[j % 4:] + RESIZE_PACK if x != kids[i][1])]
+                             for j, i in enumerate(packed)])
+        for v in variants:
+            c = dict(case)
+            c["resize"] = v
+            yield c
+
+
 def columns_spelled_cases(max_n, uniform_upto, maxcol=(1, 14)):
     """the render grid of columns_render_cases at dividechars 1, min_width 2, under every spelling"""
     return spelled((c for c in columns_render_cases(max_n, maxcol) if c["d"] == 1 and c["mw"] == 2), "children",
@@ -1494,6 +1670,7 @@ GRID_OPS = (
     + [["append", sp] for sp in GRID_SPELLS]
     + [["insert", 0, "options"], ["insert", 1, "tuple-enum"]]
     + [["del", 0], ["del", -1], ["focus", 0], ["focus", -1], ["reassign", 1], ["cells", 1]]
+    + [["recw"], ["own", 0, 1, "options-amount"], ["own", -1, 5, "tuple-str"]]
 )
 
 
@@ -1539,6 +1716,21 @@ def _child_option(allow_pack):
 
 
 @st.composite
+def _resize_st(draw, kids):
+    """nothing (half of the cases) or 1..3 children that change their amount while the container lives"""
+    if draw(st.booleans()):
+        return []
+    idx = draw(st.lists(st.integers(0, len(kids) - 1), min_size=1, max_size=3, unique=True))
+    out = []
+    for i in sorted(idx):
+        kind, old = kids[i]
+        new = draw(_weight if kind == "weight" else st.integers(0 if kind == "pack" else 1, 40))
+        if new != old:
+            out.append([i, new])
+    return out
+
+
+@st.composite
 def _columns_case(draw):
     mode = draw(st.sampled_from(["flow", "flow", "box"]))
     children = draw(st.lists(_child_option(mode == "flow"), min_size=1, max_size=8))
@@ -1550,7 +1742,8 @@ def _columns_case(draw):
     maxcol = draw(st.one_of(st.integers(1, 40), st.integers(1, 200)))
     return {"children": children, "d": draw(st.integers(0, 4)), "mw": draw(st.integers(1, 6)),
             "focus": draw(st.integers(0, n - 1)), "maxcol": [maxcol, maxcol], "mode": mode, "box": box,
-            "maxrow": draw(st.integers(1, 5)), "render": True, "spell": draw(_spell_st(n))}
+            "maxrow": draw(st.integers(1, 5)), "render": True, "spell": draw(_spell_st(n)),
+            "resize": draw(_resize_st(children))}
 
 
 @st.composite
@@ -1560,7 +1753,8 @@ def _pile_case(draw):
     items = draw(st.lists(opt, min_size=1, max_size=8).filter(lambda it: any(k == "weight" for k, _a in it)))
     maxrow = draw(st.one_of(st.integers(1, 40), st.integers(1, 200)))
     return {"items": items, "focus": draw(st.integers(0, len(items) - 1)), "maxcol": draw(st.integers(1, 10)),
-            "maxrow": [maxrow, maxrow], "render": True, "spell": draw(_spell_st(len(items)))}
+            "maxrow": [maxrow, maxrow], "render": True, "spell": draw(_spell_st(len(items))),
+            "resize": draw(_resize_st(items))}
 
 
 def _align_st(names):
@@ -1648,6 +1842,8 @@ def _grid_hist_case(draw):
         st.tuples(st.just("del"), pos),
         st.tuples(st.just("focus"), pos),
         st.tuples(st.sampled_from(["reassign", "cells"]), pos),
+        st.just(("recw",)),
+        st.tuples(st.just("own"), pos, st.integers(1, 20), st.sampled_from(GRID_SPELLS_AMOUNT)),
     ).map(list)
     size = st.one_of(st.integers(1, 40), st.integers(1, 120), st.none())
     return {"n": n, "cw": draw(st.integers(1, 20)), "hsep": draw(st.integers(0, 4)), "vsep": draw(st.integers(0, 3)),
@@ -1707,9 +1903,23 @@ def shard(ctx):
     sweep("grid", grid_cases(ctx.scale(5, 7)), _grid_nontrivial, _grid_classes, "GridFlow cells<=7, cell width 1..6, maxcol 1..30")
 
     sweep("grid_hist", grid_hist_cases(ctx.scale((1, 3, 5), (1, 2, 3, 5, 7))), _grid_hist_nontrivial, _grid_hist_classes,
-          "GridFlow histories: every 1- and 2-op history of 21 ops (cell_width / h_sep / v_sep / align assignment, "
+          "GridFlow histories: every 1- and 2-op history of 24 ops (cell_width / h_sep / v_sep / align assignment, "
+          "cell_width assigned the value it has, one cell given a width of its own through .contents, "
           "append / insert in every options spelling, delete, focus, contents / cells re-assignment) on small grids, "
           "drawn after every step at maxcol 5, 13 and fixed")
+
+    sweep("pile", resized(pile_cases({n: PILE_SMALL for n in range(1, ctx.scale(3, 4) + 1)}, maxrow=(1, 14), render=True), "items"),
+          _pile_nontrivial, _pile_classes,
+          "Pile get_item_rows + get_rows_sizes + render three times at every size (as built / after a child changed its "
+          "amount / after it changed back), small option set: each packed child alone to every other height of "
+          "0/1/3/5, all packed children together, each given / weighted child re-optioned to one other amount")
+    sweep("columns", resized((c for c in columns_render_cases(3, ctx.scale((1, 12), (1, 14)))
+                              if c["d"] == 1 and c["mw"] == 2 and (not quick or not c["box"])), "children"),
+          _columns_nontrivial, _columns_classes,
+          "Columns column_widths + get_column_sizes + render three times at every width (as built / after a child "
+          "changed its amount / after it changed back), small option set, dividechars 1, min_width 2 (quick: no "
+          "box_columns flags): each packed child alone to every other width of 0/1/3/5, all packed children together, "
+          "each given / weighted child re-optioned to one other amount")
 
     given("columns", _columns_case(), 300, 8000, _columns_nontrivial, _columns_classes)
     given("pile", _pile_case(), 250, 6000, _pile_nontrivial, _pile_classes)
